@@ -224,6 +224,53 @@ type envVal struct {
 	c     constant.Value // nil means the nil pointer/interface when isNil
 	isNil bool
 	nonNil bool
+	sym   string // symbolic identity: a load of a never-stored field path of a parameter (two such loads are equal)
+}
+
+// symOf: "pN.F.G" when v loads a field path rooted at a parameter and no
+// instruction of the function stores to the last field of the path.
+func symOf(v ssa.Value) string {
+	u, ok := v.(*ssa.UnOp)
+	if !ok || u.Op != token.MUL {
+		return ""
+	}
+	fa, ok := u.X.(*ssa.FieldAddr)
+	if !ok {
+		return ""
+	}
+	fn := u.Parent()
+	if fn == nil {
+		return ""
+	}
+	last := fieldOf(fa.X.Type(), fa.Field)
+	path := last.Name()
+	x := fa.X
+	for depth := 0; depth < 6; depth++ {
+		switch b := x.(type) {
+		case *ssa.Parameter:
+			if len(FieldStores(fn, last)) > 0 {
+				return ""
+			}
+			return b.Name() + "." + path
+		case *ssa.UnOp:
+			if b.Op != token.MUL {
+				return ""
+			}
+			fa2, ok := b.X.(*ssa.FieldAddr)
+			if !ok {
+				return ""
+			}
+			f2 := fieldOf(fa2.X.Type(), fa2.Field)
+			if len(FieldStores(fn, f2)) > 0 {
+				return ""
+			}
+			path = f2.Name() + "." + path
+			x = fa2.X
+		default:
+			return ""
+		}
+	}
+	return ""
 }
 
 type pathEnv map[ssa.Value]envVal
@@ -240,6 +287,8 @@ func (e pathEnv) key() string {
 			s += "nil"
 		case x.nonNil:
 			s += "nonnil"
+		case x.c == nil:
+			s += "sym:" + x.sym
 		default:
 			s += x.c.ExactString()
 		}
@@ -274,6 +323,9 @@ func (e pathEnv) eval(v ssa.Value) envVal {
 	if r, ok := e[v]; ok && r.known {
 		return r
 	}
+	if s := symOf(v); s != "" {
+		return envVal{known: true, sym: s}
+	}
 	switch x := v.(type) {
 	case *ssa.UnOp:
 		if x.Op == token.NOT {
@@ -285,6 +337,17 @@ func (e pathEnv) eval(v ssa.Value) envVal {
 	case *ssa.BinOp:
 		a, b := e.eval(x.X), e.eval(x.Y)
 		if a.known && b.known {
+			if a.sym != "" || b.sym != "" {
+				if a.sym != "" && a.sym == b.sym {
+					switch x.Op {
+					case token.EQL, token.LEQ, token.GEQ:
+						return envVal{known: true, c: constant.MakeBool(true)}
+					case token.NEQ, token.LSS, token.GTR:
+						return envVal{known: true, c: constant.MakeBool(false)}
+					}
+				}
+				return envVal{}
+			}
 			if (a.isNil || a.nonNil) && (b.isNil || b.nonNil) {
 				if a.nonNil && b.nonNil {
 					return envVal{}
